@@ -12,6 +12,10 @@
     (inside emphasis, link text, image alt, code spans, headings, list items);
   * op `convertl 0 …` vs op `convert` on a tenth of the documents.
 
+  * op `re.legacyem` (`LegacyEm.legacyMatch`, `MdVerif/Model/Ext/LegacyEm.lean`) vs
+    `LegacyUnderscoreProcessor.PATTERNS[k].pattern.match(s, pos)` of `markdown/extensions/legacy_em.py` for the five patterns, strings over
+    `_`, `*`, letters, blanks, line feeds, non-ASCII word characters, every start position.
+
 run(driver, rng, n) -> {'cases', 'distinct', 'disagreements', 'samples', 'dist'}.
 """
 from __future__ import annotations
@@ -23,6 +27,7 @@ sys.path.insert(0, os.path.dirname(os.path.abspath(__file__)))
 import proto  # noqa: E402
 import markdown  # noqa: E402
 from markdown.extensions import legacy_attrs as LA  # noqa: E402
+from markdown.extensions import legacy_em as LE  # noqa: E402
 import pipeline as CP  # noqa: E402
 
 ATOMS = ['{@', '{@', '{@', '{', '@', '=', '=', '}', '}', '\n', ' ', 'id', 'class', 'k', 'v', 'alt', 'a b', 'x1', '\\_', '\x0295\x03', '*', '_', '`', '[', ']',
@@ -188,7 +193,24 @@ def run(driver, rng, n):
         dist['off'] += 1
         if x0 != xc:
             dis.append({'op': 'convertl-off', 'input': {'src': s, 'tab': tab, 'fmt': fmt}, 'model': x0[:200], 'impl': xc[:200]})
-    return {'cases': len(texts) + len(trees) + len(docs) + len(sub), 'distinct': len(seen), 'disagreements': dis, 'samples': samples, 'dist': dist}
+    # ---------------------------------------------------------------- legacy_em recognisers
+    EM_AL = ['_', '_', '_', '__', '___', '*', 'a', 'b', 'word', ' ', ' ', '\n', 'é', '1', '\\', '`', '_a_', '__b__', '___c___', '_connected_words_']
+    reqs = []; meta = []
+    pats = LE.LegacyUnderscoreProcessor.PATTERNS
+    for _ in range(max(1, n // 3)):
+        t = ''.join(rng.choice(EM_AL) for _ in range(rng.randint(1, 9)))
+        k = rng.randrange(len(pats)); pos = rng.randint(0, len(t) + 1)
+        us = [i for i, ch in enumerate(t) if ch == '_']
+        if us and rng.random() < 0.7: pos = rng.choice(us)
+        reqs.append(('re.legacyem', str(k), proto.enc_str(t), str(pos))); meta.append((k, t, pos))
+    dist['legacyem'] = 0; dist['legacyem:match'] = 0
+    for (k, t, pos), a in zip(meta, driver.ask_many(reqs)):
+        m = pats[k].pattern.match(t, pos)
+        real = 'N' if not m else '%d|%s' % (m.end(), proto.enc_list(list(m.groups()[1:])))
+        dist['legacyem'] += 1
+        if m: dist['legacyem:match'] += 1; seen.add(('em', k, t, pos))
+        if real != a: dis.append({'op': 're.legacyem', 'input': {'k': k, 's': t, 'pos': pos}, 'model': a, 'impl': real})
+    return {'cases': len(texts) + len(trees) + len(docs) + len(sub) + len(meta), 'distinct': len(seen), 'disagreements': dis, 'samples': samples, 'dist': dist}
 
 
 if __name__ == '__main__':
